@@ -197,6 +197,30 @@ ALL = ["C%02d" % i for i in range(1, 21)]
 NOT_YET = "check not built yet (work in progress; see DESIGN.md section 4 for the planned bounded-exhaustive formulation)"
 
 
+# Families added in round 7 (periodic unrollings, two live instances, provided trait methods, ...):
+# appended to the texts above.
+ROUND7 = {
+    "C01": " Two Encoders (then two Decoders on the two canonical streams) alive at once and fed alternately, at tiny and production limits, must each produce the result of their own input; inputs fed in 1100 .. 2100 pieces (output of well over 1024 undrained slices) round-trip.",
+    "C02": " Two Encoders alive at once and fed alternately must each produce the canonical output of their own input; inputs fed in 1100 .. 2100 pieces; the length bound is checked for EVERY input length 0 .. 129 016 (quick) / 257 032 (thorough) of plain and of FE bytes.",
+    "C03": " Periodic unrollings: every cycle of up to 3 (thorough: 4 on the smaller alphabets) ops repeated 16 / 40 times (disabled ops skipped), full oracle after every repetition, over alphabets A, B, F and the reduced one; long unrollings of 1100 / 2200 repetitions over an 8-op alphabet (well over 1024 slices buffered); the provided methods of the Read trait (read_to_end, read_exact, read_vectored, bytes) are consumer ops.",
+    "C04": " Periodic unrollings (every cycle of up to 3 / 4 ops x 16 / 40 repetitions) over alphabets B and F; a reduced alphabet B plus the byte-stream views (Read::read, read_to_end, read_vectored, bytes) to depth 6 / 7 and in cycles.",
+    "C05": " Periodic unrollings (every cycle of up to 3 / 4 ops x 16 / 40 repetitions) over alphabet C and the extended anchored-memory alphabet; two StreamReaders alive at once and asked for records alternately.",
+    "C06": " Two StreamReaders alive at once, each over its own stream (every stream up to length 4 / 5 against five fixed ones, six block sizes), asked for records alternately, must each return the records of their own stream.",
+    "C07": " Two codecs of a kind alive at once and fed alternately; inputs and canonical streams fed in 1100 .. 2100 pieces; exact output length for every input length 0 .. 129 016 / 257 032 of plain and of FE bytes.",
+    "C10": " Periodic unrollings (every cycle of up to 3 / 4 ops x 16 / 40 repetitions) end in the same leak accounting; one history in three ends with placeholders still pending (the iovecs are dropped, the caller keeps the Backref tokens a moment longer: tokens own nothing).",
+    "C11": " The iterator handed out by MessageView::iter is exercised through every provided Iterator method (size_hint, count, last, nth, fold, skip, step_by, after 0, 1, 2, N-1, N calls of next), called on the iterator itself.",
+    "C12": " On every accepted borrowed view the iterator of iter() and of tags() is exercised through every provided Iterator method, and tags_match_exactly is compared with sequence equality for patterns equal / shorter / longer / changed, carried by iterators with exact, bounded and unbounded size hints.",
+    "C13": " Sequential clause: every history of 2..4 (thorough 6) ops is also run on TWO instances used alternately by one thread (each against its own model, the idle one re-read after every step of the other), and every cycle of up to 3 ops is repeated 40 / 100 times on one instance and on two.",
+    "C15": " Periodic unrollings: every cycle of up to 4 / 5 ops over the 16-op alphabet repeated 40 / 100 times on one object (three backings, From<container> starts of 3 and 1024 items), and the same one op shorter with TWO deques alive and used alternately, each against its own model.",
+    "C16": " Periodic unrollings: every cycle of up to 3 / 4 ops over 22 ops (incl. removals by rank from the back and the middle, and push_tight = the smallest valid key, which lies below keys that left earlier) repeated 30 / 60 times on one object, and one op shorter on TWO deques used alternately; the iterator of iter() goes through every provided Iterator method at the end of every re-executed history.",
+    "C18": " Long observers: 300 snapshots / 300 try_update calls in a row on one thread against every suspension point of one writer. An observer (or a try_update writer) found asleep in the kernel for a second without being held by the step hook is reported as waiting on an uninstrumented primitive; a violation that process-global state hides from a second in-process run is confirmed in a fresh process.",
+    "C19": " The thread's own private AtomicBaseTime (brought to sequence number 1, 2 or 3 with far-future pairs and read) is an environment event: before any module call (all sequences to depth 2 / 3 after it) and among the observing ops after a registration.",
+    "C20": " Periodic unrollings of the two-sided suffix alphabet (every cycle of up to 3 ops x 16 / 40 repetitions) after two clone points.",
+}
+for _pid, _extra in ROUND7.items():
+    CHECKS[_pid]["text"] = CHECKS[_pid]["text"].rstrip() + _extra
+
+
 def main():
     checks = []
     for pid in ALL:
@@ -242,7 +266,7 @@ def main():
             for name, props in sorted(engines.items())
         ],
         "checks": checks,
-        "notes": "All checks are bounded-exhaustive explorations of the real code (model checking family); see DESIGN.md (section 8 = as built). Exit 2 = machinery failure (no verdict). Five genuine defects were repaired by fix: commits in /repo (82bc7df, d1c40af, 04d0781, 064d609, 3d944fa; see known_findings.txt).",
+        "notes": "All checks are bounded-exhaustive explorations of the real code (model checking family); see DESIGN.md (section 8 = as built). Exit 2 = machinery failure (no verdict). Six genuine defects were repaired by fix: commits in /repo (82bc7df, d1c40af, 04d0781, 064d609, 3d944fa, 0b9be53; see known_findings.txt).",
         "not_applicable": [
             {"property_id": pid, "reason": NOT_YET} for pid in ALL if pid not in CHECKS
         ],
